@@ -270,7 +270,7 @@ def time_shift(z, /, shift, crop=False):
     if isinstance(shift, u.Quantity):
         shift = (shift * z.sample_rate).to_value(u.one)
 
-    shift = np.array(shift)
+    shift = np.array(shift, dtype=np.float64)
 
     if shift.ndim >= z.ndim:
         raise ValueError(
@@ -292,7 +292,8 @@ def time_shift(z, /, shift, crop=False):
     else:
         f = np.fft.fftfreq(len(z), 1)[f_ix]
 
-    ph = np.exp(-2j * np.pi * shift * f).astype(np.complex64)
+    # Single precision is enough (and keeps the dtype) for single-precision data only
+    ph = np.exp(-2j * np.pi * shift * f).astype(np.result_type(z.dtype, np.complex64))
     shifted = pb.fft.ifft(pb.fft.fft(z.data, axis=0) * ph, axis=0)
     shifted = shifted if np.iscomplexobj(z.data) else shifted.real
 
